@@ -108,3 +108,6 @@ Definition dispatch (f : list N) (a : jv) : jv :=
     match a with JL l => match jv_strs l with Some ss => JS (contentlines_to_ical ss) | None => junsupported end
     | _ => junsupported end
   else jtag "nofunc" [].
+
+(* every area of the model has its own dispatcher [list N -> jv -> option jv]; the driver
+   calls [dispatch_all], which tries them in turn and ends with the core one above *)
